@@ -8,6 +8,7 @@ def all_units(raw=False):
         out += getattr(mod, 'UNITS', [])
     names = [u.name for u in out]
     assert len(names) == len(set(names)), "duplicate unit names"
+    assert all(u.replay for u in out), "a unit without native replay families has nothing to fall back on when it is undecided"
     if not raw:
         # a unit is also run under every property that one of its obligations' labels names (tools/label_index.py)
         try: idx = json.load(open(os.path.join(here, 'label_index.json')))
